@@ -28,6 +28,7 @@ type c18Scn struct {
 	RBuf   int     `json:"rbuf"`
 	TSN    uint32  `json:"tsn"`
 	Ops    []c18Op `json:"ops"`
+	PPIs   []int   `json:"ppis,omitempty"` // payload protocol identifiers of successive writes (cyclic)
 }
 
 func genC18(rt *rapid.T) c18Scn {
@@ -36,6 +37,12 @@ func genC18(rt *rapid.T) c18Scn {
 	sc.RBuf = 0
 	if sc.Block {
 		sc.RBuf = rapid.SampledFrom([]int{3000, 6000, 0}).Draw(rt, "rbuf")
+	}
+	// mostly binary; sometimes DCEP (always sent ordered and reliably, whatever the stream's
+	// settings), string, or the "empty" identifiers
+	np := rapid.IntRange(1, 4).Draw(rt, "nppi")
+	for i := 0; i < np; i++ {
+		sc.PPIs = append(sc.PPIs, rapid.SampledFrom([]int{53, 53, 53, 50, 50, 51, 56, 57}).Draw(rt, "ppi"))
 	}
 	mm := sc.MaxMsg
 	if mm == 0 {
@@ -109,9 +116,11 @@ func runC18(t *testing.T, x c18Scn, verbose bool) (c vfCase) {
 			type msg struct {
 				hash uint64
 				size int
+				ppi  uint32
 			}
 			var expect []msg // accepted, not yet read
 			id := 0
+			lastPPI := uint32(0)
 			dataTx := func() (int, int) { // number of DATA first transmissions / payload bytes from side 0
 				seen := map[uint32]bool{}
 				n, b := 0, 0
@@ -135,8 +144,13 @@ func runC18(t *testing.T, x c18Scn, verbose bool) (c vfCase) {
 			}
 			write := func(st *Stream, size int) (int, error, []byte) {
 				b := vfPayload(1000+id, size)
+				ppi := PayloadTypeWebRTCBinary
+				if len(x.PPIs) > 0 {
+					ppi = PayloadProtocolIdentifier(x.PPIs[id%len(x.PPIs)])
+				}
 				id++
-				n, err := st.WriteSCTP(b, PayloadTypeWebRTCBinary)
+				lastPPI = uint32(ppi)
+				n, err := st.WriteSCTP(b, ppi)
 				return n, err, b
 			}
 			acceptedBytes := 0
@@ -182,7 +196,7 @@ func runC18(t *testing.T, x c18Scn, verbose bool) (c vfCase) {
 					c.fail("write-failed", "valid write of %d bytes returned n=%d err=%v", size, n, err)
 					return false
 				}
-				expect = append(expect, msg{vfHash64(b), size})
+				expect = append(expect, msg{vfHash64(b), size, lastPPI})
 				acceptedBytes += size
 				return true
 			}
@@ -219,6 +233,9 @@ func runC18(t *testing.T, x c18Scn, verbose bool) (c vfCase) {
 			takeExpected = func(r *c18Read, what string) {
 				for i, m := range expect {
 					if m.hash == r.hash && m.size == r.n {
+						if m.ppi != r.ppi {
+							c.fail("ppi-mismatch", "%s: message written with payload protocol identifier %d was read with %d", what, m.ppi, r.ppi)
+						}
 						if i != 0 && !x.Unord {
 							c.fail("read-out-of-order", "%s: read message #%d of the outstanding ones on an ordered stream", what, i)
 						}
@@ -299,7 +316,7 @@ func runC18(t *testing.T, x c18Scn, verbose bool) (c vfCase) {
 						break
 					}
 					if err == nil {
-						expect = append(expect, msg{vfHash64(b), len(b)})
+						expect = append(expect, msg{vfHash64(b), len(b), lastPPI})
 						acceptedBytes += len(b)
 					} else {
 						if n != 0 {
